@@ -81,7 +81,6 @@ pub fn contents(ctor: u8, c: usize, r: usize) {
     let init = nd::u8_();
     let mut v = Vec::with_capacity(n);
     v.extend_from_slice(&cells[..n]);
-    let vptr = v.as_ptr();
     let t: TooDee<u8> = match ctor {
         0 => TooDee::new(c, r),
         1 => TooDee::init(c, r, init),
@@ -100,9 +99,6 @@ pub fn contents(ctor: u8, c: usize, r: usize) {
         };
         assert!(t[(x, y)] == want, "ORACLE: constructor: cell (x,y) is not the specified value in row-major order");
         assert!(t.data()[y * c + x] == want, "ORACLE: constructor: data() is not row-major");
-        if ctor == 2 {
-            assert!(t.data().as_ptr() == vptr, "ORACLE: from_vec did not take over the given buffer");
-        }
     }
     end_reached!();
 }
